@@ -63,6 +63,25 @@ class MROError(Exception):  # pylint: disable=g-bad-exception-name
     self.mro_seqs = seqs
 
 
+def CheckDuplicateBases(bases, seqs):
+  """Raise MROError if the same class is listed twice among the direct bases.
+
+  CPython refuses such a class statement ("duplicate base class X"), whereas
+  MROMerge() would silently drop the repetition.
+
+  Args:
+    bases: The direct bases, as written (before any de-parameterization).
+    seqs: The MRO sequences to report in the MROError.
+  """
+  seen = set()
+  for base in bases:
+    if getattr(base, "SINGLETON", False) or isinstance(base, pytd.AnythingType):
+      continue  # Any may stand for different classes.
+    if base in seen:
+      raise MROError(seqs)
+    seen.add(base)
+
+
 def MROMerge(input_seqs):
   """Merge a sequence of MROs into a single resulting MRO.
 
@@ -109,6 +128,7 @@ def _ComputeMRO(t, mros, lookup_ast):
         else:
           base_mro = _ComputeMRO(base, mros, lookup_ast)
         base_mros.append(base_mro)
+      CheckDuplicateBases(_GetClass(t, lookup_ast).bases, [[t]] + base_mros)
       mros[t] = tuple(
           MROMerge(
               [[t]] + base_mros + [_Degenerify(_GetClass(t, lookup_ast).bases)]
@@ -127,4 +147,5 @@ def GetBasesInMRO(cls, lookup_ast=None):
   base_mros = []
   for p in cls.bases:
     base_mros.append(_ComputeMRO(p, mros, lookup_ast))
+  CheckDuplicateBases(cls.bases, base_mros)
   return tuple(MROMerge(base_mros + [_Degenerify(cls.bases)]))
